@@ -4,6 +4,8 @@ use crate::{Cfg, Meta};
 pub mod c01;
 pub mod c02;
 pub mod c03;
+pub mod c06;
+pub mod c07;
 pub mod c10;
 
 pub fn dispatch(prop: &str, cfg: &Cfg) -> Option<(Log, Meta)> {
@@ -11,6 +13,16 @@ pub fn dispatch(prop: &str, cfg: &Cfg) -> Option<(Log, Meta)> {
     "C01" => c01::run(cfg),
     "C02" => c02::run(cfg),
     "C03" => c03::run(cfg),
+    "C06" => c06::run(cfg),
+    "C07" => c07::run(cfg),
     _ => return None,
   })
+}
+
+/// the day-level sample of the quick tier shared by C06/C07/C08/C15/C17: years = seed mod 20, plus
+/// the eras where the month->term guess is at its worst and the range ends
+pub fn day_sample_years(cfg: &Cfg) -> Vec<i64> {
+  (1..=9999i64)
+    .filter(|y| y % 20 == (cfg.seed % 20) as i64 || *y <= 30 || (1570..=1600).contains(y) || (3430..=3445).contains(y) || (7260..=7290).contains(y) || *y >= 9990)
+    .collect()
 }
